@@ -13,12 +13,29 @@ class C11(Prop):
     id = "C11"
     title = "heart_beat runs once per interval per enabled object; faults stay local"
     lean_modules = ["NV.C11.Props", "NV.C11.Witness"]
-    theorems_final = [
-        "NV.C11.hb_index_in_bounds",
+    theorems = [
         "NV.C11.model_satisfies_spec",
+        "NV.C11.hb_index_in_bounds",
+        "NV.C11.hbs_is_service_order",
+        "NV.C11.complete_round_visits_each_once",
+        "NV.C11.beat_only_from_pending",
+        "NV.C11.beat_accepted_iff",
+        "NV.C11.period_n",
+        "NV.C11.period_n_countdown",
+        "NV.C11.interval_stored",
+        "NV.C11.error_local",
+        "NV.C11.error_local_others",
+        "NV.C11.sim_disable",
+        "NV.C11.sim_set",
+        "NV.C11.sim_round",
     ]
-    witness_theorems = []
-    theorems = []
+    witness_theorems = [
+        "NV.C11.truncation_values",
+        "NV.C11.truncated_interval_beats_every_tick",
+        "NV.C11.truncated_32768_wraps",
+        "NV.C11.clamp_witness",
+        "NV.C11.clamp_witness_int",
+    ]
     consts = [("shrtMax", "SHRT_MAX"), ("heartBeatChunk", "HEART_BEAT_CHUNK"),
               ("timerFlagHeartbeat", "TIMER_FLAG_HEARTBEAT")]
     const_headers = ["lib/efuns/options.h", "src/main.h"]
